@@ -139,7 +139,129 @@ def levered_hold(rng, spec):
             op["q"] = float(int(op["q"] * cap / 400.0)) or 1.0
 
 
+class TriggerOracle(Observer):
+    """engine histories: on every `update` of a not-yet-flagged market-value root the total is recomputed independently from the
+    pre-state - all cash in the tree (strategies' capital and the coupon/carry parked on securities) plus position x new price x
+    multiplier of every security - and the flag must be set exactly when that total is below zero; after a flagged update every
+    position in the tree is zero"""
+
+    def __init__(self, ctx):
+        self.ctx = ctx
+
+    def after(self, bt, spec, root, dates, step, i):
+        ctx = self.ctx
+        if step["op"]["op"] != "update" or "post" not in step:
+            return
+        pre, post = step["pre"]["root"], step["post"]["root"]
+        if pre["bankrupt"] or pre["fixedIncome"]:
+            if pre["fixedIncome"] and post["bankrupt"]:
+                ctx.violation("C16/fi-flagged", "fixed-income root flagged bankrupt in an engine history", {"spec": spec, "upto": i})
+            return
+        d = step["op"]["d"]
+        tot = [0.0]
+        scale = [1.0]
+        ok = [True]
+
+        def rec(n):
+            if n["t"] == "S":
+                tot[0] += n["capital"]
+                scale[0] = max(scale[0], abs(n["capital"]))
+                if n["position"] != 0.0:
+                    px = n["prices"][d] if d < len(n["prices"]) else None
+                    if px is None:
+                        ok[0] = False
+                        return
+                    v = n["position"] * px * n["mult"]
+                    tot[0] += v
+                    scale[0] = max(scale[0], abs(v))
+            else:
+                tot[0] += n["capital"]
+                scale[0] = max(scale[0], abs(n["capital"]))
+                for k in n["kids"]:
+                    rec(k)
+        rec(pre)
+        if not ok[0]:
+            return
+        # a pending coupon accrual of the date itself (computed inside the update) cannot change the total of the old date's cash
+        tolv = 1e-9 * scale[0]
+        if abs(tot[0]) <= tolv:
+            ctx.count("trigger-oracle:touches-zero")
+            return
+        ctx.count("trigger-oracle:updates-judged")
+        exp = tot[0] < 0
+        if exp:
+            ctx.count("trigger-oracle:bankruptcies")
+        if bool(post["bankrupt"]) != exp:
+            ctx.violation("C16/flag-vs-total:" + ("missed" if exp else "spurious"),
+                          "update to date#%d: cash in the tree + positions at the new prices = %r, flag %s" % (d, tot[0], post["bankrupt"]),
+                          {"spec": spec, "upto": i})
+            return
+        if exp:
+            def open_pos(n, w=""):
+                if n["t"] == "S":
+                    return [(w + "/" + n["name"], n["position"])] if n["position"] != 0.0 else []
+                out = []
+                for k in n["kids"]:
+                    out += open_pos(k, w + "/" + n["name"])
+                return out
+            left = open_pos(post)
+            zero_px = any(True for _ in [0] if False)
+            if left:
+                # the documented exclusion: a security marked at exactly zero keeps its position (known zero-value case)
+                def zero_marked(n):
+                    if n["t"] == "S":
+                        return n["position"] != 0.0 and n["value"] == 0.0
+                    return any(zero_marked(k) for k in n["kids"])
+                if not zero_marked(post):
+                    ctx.violation("C16/position-after-bankruptcy", "after the liquidating update to date#%d positions remain: %r" % (d, left[:3]),
+                                  {"spec": spec, "upto": i})
+
+
+def carry_tree(rng, spec):
+    """market-value root holding coupon-paying securities directly (carry parked on the security and swept on the next date),
+    plain securities and a sub-strategy; levered so that crashes bankrupt it"""
+    T = spec["T"]
+    kinds = [2, 2, 4, 0]
+    rng.shuffle(kinds)
+    kids = []
+    for t, k in zip(["a", "b", "c", "d"], kinds[:rng.randint(2, 4)]):
+        kids.append({"sec": t, "kind": k, "mult": rng.choice([1.0, 1.0, 10.0]), "cfi": False})
+    if rng.random() < 0.4:
+        kids.append({"name": "s00", "fi": False, "algos": False, "kids": [{"sec": "e", "kind": 0, "mult": 1.0, "cfi": True}]})
+    spec["tree"] = {"name": "root", "fi": False, "algos": False, "kids": kids}
+    big = rng.random() < 0.6
+    spec["coupons"] = {t: [rng.choice([0.0, 0.5, 2.0, 5.0]) * (3.0 if big else 1.0) for _ in range(T)] for t in G.TICKERS}
+    spec["cost_long"] = {t: [rng.choice([0.0, 0.125]) for _ in range(T)] for t in G.TICKERS} if rng.random() < 0.5 else None
+    spec["cost_short"] = None
+    # crash paths
+    for t, col in spec["prices"].items():
+        p = float(rng.randint(20, 60))
+        path = []
+        for j in range(T):
+            p = max(1.0, p + rng.choice([-12.0, -6.0, -3.0, 1.0, 2.0, -20.0]))
+            path.append(p)
+        spec["prices"][t] = path
+    cap = spec["capital"]
+    ops = [{"op": "adjust", "path": [], "amount": cap, "update": True, "flow": True}, {"op": "update", "d": 0}]
+    secs = [p for p in G.all_paths(spec["tree"]) if p[1]]
+    lev = rng.choice([1.0, 1.5, 2.0, 3.0])
+    for p in secs:
+        px = spec["prices"][p[2]["sec"]][0] * p[2]["mult"]
+        q = float(int(lev * cap / (len(secs) * px))) or 1.0
+        ops.append({"op": "transact", "path": p[0], "q": q, "update": rng.random() < 0.5, "price": None})
+    ops.append({"op": "update", "d": 0})
+    for d in range(1, T):
+        ops.append({"op": "update", "d": d})
+        if rng.random() < 0.3:
+            ops.append({"op": "update", "d": d})
+        if rng.random() < 0.3:
+            ops.append({"op": "observe", "on": "real"})
+    spec["ops"] = ops
+
+
 def run(ctx, bt):
+    run_engine_protocol(ctx, bt, ctx.scale(40, 600), [TriggerOracle(ctx)], FOOT_FIELDS, None, spec_kwargs={"fi_tree": False},
+                        spec_mutator=carry_tree, corr_name="step[C16]:carry-securities-under-market-value-root")
     n = ctx.scale(120, 2500)
     for _ in range(n):
         spec = gen_spec(ctx.rng)
@@ -147,7 +269,7 @@ def run(ctx, bt):
         if len(ctx.samples) < 2:
             ctx.sample({"tree": spec["tree"], "lev": spec["lev"], "integer": spec["integer"], "comm": spec["comm"]})
         check_run(ctx, bt, spec)
-    run_engine_protocol(ctx, bt, ctx.scale(60, 600), [], FOOT_FIELDS, None, spec_kwargs={"fi_tree": False},
+    run_engine_protocol(ctx, bt, ctx.scale(60, 600), [TriggerOracle(ctx)], FOOT_FIELDS, None, spec_kwargs={"fi_tree": False},
                         spec_mutator=levered_hold, corr_name="step[C16]")
     from ..runs_run import run_steps_protocol
     run_steps_protocol(ctx, bt, ctx.scale(25, 500), FOOT_FIELDS, "run-steps[C16]:leveraged-programs", make_spec=gen_spec)
@@ -169,7 +291,7 @@ def replay(bt, data, ctx):
     case = data["case"]
     spec = case["spec"]
     if "ops" in spec:
-        steps, root, dates = run_history_observed(bt, spec, ctx.rng, len(spec["ops"]), [], ctx)
+        steps, root, dates = run_history_observed(bt, spec, ctx.rng, len(spec["ops"]), [TriggerOracle(ctx)], ctx)
         model_compare(ctx, bt, [(spec, i, st) for i, st in enumerate(steps)], FOOT_FIELDS, None, "step[C16]")
     else:
         check_run(ctx, bt, spec)
